@@ -426,6 +426,10 @@ class World(BaseWorld):
             if isinstance(self.calls[of].get("schedule"), list) and self.calls[of].get("seed") is not None and rng.random() < 0.35:
                 rop["variant"] = "float_schedule"
                 rop["clock"] = self.calls[of].get("clock", [0])
+            elif rng.random() < 0.3:
+                # the twin call is issued from another execution context (a fresh thread, or below extra C frames):
+                # same arguments, same seed, other stack addresses
+                rop["ctx"] = rng.choice(["thread", "nested"])
             return rop
         if getattr(self, "live_desc", None) is not None and getattr(self, "last_live_op", None) is not None and rng.random() < 0.2:
             return {"op": "relive"}
@@ -586,7 +590,30 @@ class World(BaseWorld):
         with warnings.catch_warnings(record=True) as wlist:
             warnings.simplefilter("always")
             try:
-                res = fn(model, **kwargs)
+                ctx = op.get("ctx")
+                if ctx == "thread":
+                    import threading
+                    box = {}
+
+                    def _run():
+                        try:
+                            box["res"] = fn(model, **kwargs)
+                        except Exception as e_:      # noqa
+                            box["exc"] = e_
+                    th = threading.Thread(target=_run)
+                    th.start()
+                    th.join()
+                    self.fault("call_from_another_thread")
+                    if "exc" in box:
+                        raise box["exc"]
+                    res = box.get("res")
+                elif ctx == "nested":
+                    def _deep(k):
+                        return fn(model, **kwargs) if k == 0 else list(map(_deep, [k - 1]))[0]
+                    res = _deep(12)
+                    self.fault("call_below_extra_c_frames")
+                else:
+                    res = fn(model, **kwargs)
             except Exception as e:      # noqa
                 exc = e
         cnt = sh.counters()
@@ -837,6 +864,8 @@ class World(BaseWorld):
         orig = {k: v for k, v in self.calls[of].items() if not k.startswith("_")}
         orig["model"] = {k: v for k, v in orig["model"].items() if k not in ("keep", "live", "new_edits", "new_scribble")}
         variant = op.get("variant")
+        if op.get("ctx"):
+            orig["ctx"] = op["ctx"]
         if variant == "float_schedule" and isinstance(orig.get("schedule"), list):
             # metamorphic twin: the same temperatures written as Python floats instead of ints (or the other way round where the
             # value is integral).  The numbers are equal, so a seeded call must return the same results; a difference means the
